@@ -23,6 +23,14 @@ M3 = ['a', 'b', 'dD', 'uD', 'dE', 'uE', 'dG', 'uG', 'dB', 'cb', 'uB']
 M4 = ['a', 'dA', 'uA', 'dF', 'uF', 'cb', 'sp', 'nl']
 MALL = sorted(set(M1 + M2 + M3 + M4 + ['fn', 'nl', 'im', 'add']))
 CITEO = ['a', 'sp', 'cto', 'ctc', 'ob', 'cb', 'rbk', 'b']
+INL1 = ['a', 'sp', 'mo', 'mc', 'my', 'mpl', 'mdt', 'msp', 'mfr']
+INL2 = ['a', 'mo', 'mc', 'mo2', 'mc2', 'my', 'mw', 'meq', 'mal', 'msb', 'mti', 'mcm', 'mob', 'mcb', 'fn', 'cb', 'add', 'it', 'bi', 'ei', 'sec']
+INL3 = ['mo', 'mc', 'my', 'mdt', 'a', 'fn', 'cb']
+INLALL = sorted(set(INL1 + INL2 + ['nl', 'lb', 'uk', '.']))
+DSP1 = ['ba', 'ea', 'my', 'mdt', 'meq', 'mam', 'mnl']
+DSP2 = ['ba', 'ea', 'my', 'mdt', 'mcm', 'meq', 'mpl', 'mtx', 'msp', 'mlb', 'mam', 'mnl']
+DSP3 = ['a', 'ba', 'ea', 'bq', 'eq', 'bd', 'ed', 'bdd', 'edd', 'my', 'mw', 'mdt', 'meq', 'mtx', 'mnn', 'mlb', 'mfr', 'mal', 'msb', 'mti', 'mob', 'mcb', 'mam', 'mnl']
+DSPALL = sorted(set(DSP3 + DSP2 + ['sp', 'nl', 'mo', 'mc']))
 COPY = ['a', 'b', '.', 'sp', 'nl', 'cm', 'ob', 'cb', 'uk', 'add', 'fbx', 'tc', 'fn', 'cap', 'vb', 'tie', 'nd', 'md', 'lq', 'rq',
         'thin', 'pct', 'amp', 'dol', 'hsh', 'usc', 'lbr', 'rbr', 'lb', 'sec', 'im']
 PROSE = ['up', 'cto', 'ctc', 'a', 'b', '!', 'sp', 'nl', 'cm', 'uk', 'uk2', 'ob', 'cb', 'add', 'tc', 'fn', 'cap', 'sec', 'sub', 'bi', 'ei', 'be', 'ee', 'it',
@@ -51,17 +59,27 @@ CONFIG = {
                 quick=[(M1, 6, 2), (M2, 7, 2), (M3, 5, 2), (M4, 5, 2)],
                 thorough=[(M1, 8, 2), (M2, 9, 2), (M3, 6, 2), (M4, 7, 2), (MALL, 4, 2)],
                 sim=(MALL, 300, 3000), routes=True),
+    'C10': dict(key='c10', focus={'mo', 'mo2'},
+                quick=[(INL1, 7, 2), (INL2, 5, 3), (INL3, 9, 2)],
+                thorough=[(INL1, 9, 2), (INL2, 6, 3), (INL3, 11, 2)],
+                sim=(INLALL, 300, 3000), variants=[{}, {'lang': 'de'}, {'lang': 'ru'}]),
+    'C11': dict(key='c11', focus={'ba', 'bq', 'bd', 'bdd'},
+                quick=[(DSP1, 6, 1), (DSP2, 5, 1), (DSP3, 4, 1)],
+                thorough=[(DSP1, 8, 1), (DSP2, 6, 1), (DSP3, 5, 1)],
+                sim=(DSPALL, 300, 3000), variants=[{}, {'lang': 'de'}, {'lang': 'ru', 'seqs': True}, {'seqs': True}]),
     'C05': dict(key='c05', focus={'sp', 'nl', 'cm', 'tab', 'par', 'bm', 'bl', 'skb', 'lb', 'uk'},
                 quick=[(LAYOUT, 5, 1), (LAYOUT2, 3, 2), (['a', 'sp', 'nl', 'cm', 'lb', 'uk', 'ob', 'cb', 'skp', 'par', 'tab'], 4, 2), (LINES10, 4, 1), (LINES, 3, 2)],
                 thorough=[(LAYOUT, 6, 1), (LAYOUT2, 4, 2), (['a', 'sp', 'nl', 'cm', 'lb', 'uk', 'ob', 'cb', 'skp', 'par', 'tab'], 5, 2), (LINES10, 5, 1), (LINES, 4, 2)],
                 sim=(LAYOUT2, 300, 3000)),
 }
-OPTS = {'pack': 'xcolor,listings'}
+OPTS = {'pack': 'xcolor,listings,amsmath'}
 
 
 def project(rec):
     d = {k: rec[k] for k in ('id', 'doc', 'src', 'plain', 'map')}
     d['ndef'] = rec.get('ndef', 0)
+    d['lang'] = chars.enc((rec.get('opts') or {}).get('lang') or '')
+    d['seqs'] = bool((rec.get('opts') or {}).get('seqs'))
     d['prefix'] = rec.get('prefix', [])
     return d
 
@@ -113,8 +131,13 @@ def run(prop, tier, seed, replay=None):
         OPTS.update(case.get('opts') or {})
     else:
         beh = generate(c, conf[tier], conf['sim'], tier)
-    cases = [{'id': i, 'doc': b['doc'], 'src': b['src'], 'opts': OPTS, 'ndef': b.get('ndef', 0), 'prefix': b.get('prefix', []),
-              'files': b.get('files')} for i, b in enumerate(beh)]
+    variants = conf.get('variants') or [{}]
+    cases = []
+    for i, b in enumerate(beh):
+        vs = variants if (len(beh) < 4000 or tier == 'thorough') else [variants[i % len(variants)]]
+        for k, v in enumerate(vs):
+            cases.append({'id': '%d.%d' % (i, k) if len(variants) > 1 else i, 'doc': b['doc'], 'src': b['src'], 'opts': dict(OPTS, **v),
+                          'ndef': b.get('ndef', 0), 'prefix': b.get('prefix', []), 'files': b.get('files')})
     scratch = None
     if conf.get('routes') and not replay:
         # C09: the leading block of definitions is also supplied through --defs and through a file read by \LTinput
